@@ -284,7 +284,10 @@ def _c17_case(seed):
         arch = build_arch([m for m in mods if rng.random() < 0.8 or "." not in m], [(a, b) for a, b in [tuple(rng.sample(mods, 2)) for _ in range(3)]])
     nodes = sorted(arch.modules)
     keys = rng.sample(nodes, rng.randint(0, min(4, len(nodes))))
-    aliases = {k: rng.choice(["A", "X.Y", "al+", "(z)", "a.b", ""]) + str(i) for i, k in enumerate(keys)}
+    aliases = {k: rng.choice(["A", "X.Y", "al+", "(z)", "a.b", "", ".rel", "..up", "tail."]) + str(i) for i, k in enumerate(keys)}
+    for k in keys:
+        if rng.random() < 0.25:
+            aliases[k] = k          # an identity alias is an alias like any other: it shields the module and its sub modules from an aliased ancestor (seed C17n)
     out = []
     inp = dict(kind="c17", seed=seed)
     extra = dict(node_size=7, font_size=3) if rng.random() < 0.5 else dict(arrows=True)
@@ -318,7 +321,7 @@ def _c17_case(seed):
     ghost = rng.choice(["p.zz", "r.a.zz", "r.aa", "zz", "r.a.x.p", "r.a.x", "p.a.b.c", "r.b.x.p"])
     if ghost not in nodes:
         try:
-            draw_call(arch, aliases={**aliases, ghost: "G"})
+            draw_call(arch, aliases={**aliases, ghost: rng.choice(["G", ghost])})
             out.append(dict(case="missing-alias-target", detail=f"alias for non-existent module {ghost!r} was accepted", input=inp))
         except KeyError as e:
             if ghost not in str(e):
